@@ -1859,3 +1859,217 @@ Module ContractSamples.
     apply crun_nil.
   Qed.
 End ContractSamples.
+
+(* ================================================================== *)
+(* The definitions used in the statements, spelled out (for Props/)      *)
+(* ================================================================== *)
+Lemma a_cursor_def a : a_cursor a = fst (a_hist a) + N.of_nat (length (snd (a_hist a))).
+Proof. reflexivity. Qed.
+
+Lemma stage_def rd :
+  stage1 rd = (match rd_entries rd with [] => WDone | _ => WEnts end)
+  /\ stage0 rd = (if s_index (rd_snapshot rd) =? 0 then stage1 rd else WSnap).
+Proof. split; reflexivity. Qed.
+
+Lemma meta_write_def st m :
+  meta_write st m <->
+  entries m = entries st /\ snap_index m = snap_index st /\ snap_term m = snap_term st
+  /\ trig_log m = trig_log st.
+Proof. reflexivity. Qed.
+
+Lemma app_ok_def a o :
+  app_ok a o <->
+  match o with
+  | OStep _ | OTick | OCampaign | OPropose _ _ | OProposeCC _ _ _ _ | OPing
+  | OReportUnreachable _ | OReportSnapshot _ _ | ORequestSnapshot | OTransferLeader _
+  | OReadIndex _ | OReady | OOnPersistReady _ | OAdvanceApply => a_phase a = Idle
+  | OApplyCC _ => a_phase a = Idle /\ a_got a = true
+  | OAdvance rd | OAdvanceAppend rd | OAdvanceAppendAsync rd => a_phase a = Writing rd WDone
+  | OAdvanceApplyTo x => a_phase a = Idle /\ x <= a_cursor a
+  | OSetStore m =>
+      meta_write (a_store a) m
+      \/ match a_phase a with
+         | Writing rd WSnap => apply_snapshot (a_store a) (rd_snapshot rd) = Ok (m, SOk tt)
+         | Writing rd WEnts => append (a_store a) (rd_entries rd) = Ok m
+         | Writing _ WDone => False
+         | Idle => exists ci, compact (a_store a) ci = Ok m /\ ci <= a_applied a
+                              /\ ci < next_of (a_store a)
+         end
+  end.
+Proof. reflexivity. Qed.
+
+Lemma with_obs_def a ot st ph ap :
+  with_obs a ot st ph ap = mkApp st ph (hist_step (a_hist a) ot) ap (a_got a || nonempty (snd ot)).
+Proof. reflexivity. Qed.
+
+Lemma app_next_iff a n o ot a' :
+  app_next a n o ot a' <->
+  (idle_op o = true /\ app_ok a o /\ a' = with_obs a ot (a_store a) Idle (a_applied a))
+  \/ (exists n1 rd, o = OReady /\ a_phase a = Idle /\ rn_ready n = Ok (n1, rd)
+        /\ a' = with_obs a ot (a_store a) (Writing rd (stage0 rd)) (a_applied a))
+  \/ (exists m, o = OSetStore m /\
+        ((meta_write (a_store a) m /\ a' = with_obs a ot m (a_phase a) (a_applied a))
+         \/ (exists rd, a_phase a = Writing rd WSnap
+               /\ apply_snapshot (a_store a) (rd_snapshot rd) = Ok (m, SOk tt)
+               /\ a' = with_obs a ot m (Writing rd (stage1 rd)) (a_applied a))
+         \/ (exists rd, a_phase a = Writing rd WEnts /\ append (a_store a) (rd_entries rd) = Ok m
+               /\ a' = with_obs a ot m (Writing rd WDone) (a_applied a))
+         \/ (exists ci, a_phase a = Idle /\ compact (a_store a) ci = Ok m /\ ci <= a_applied a
+               /\ ci < next_of (a_store a) /\ a' = with_obs a ot m Idle (a_applied a))))
+  \/ (exists rd, a_phase a = Writing rd WDone /\
+        ((o = OAdvance rd /\ a' = with_obs a ot (a_store a) Idle
+                                    (if a_cursor a =? 0 then a_applied a else a_cursor a))
+         \/ ((o = OAdvanceAppend rd \/ o = OAdvanceAppendAsync rd)
+             /\ a' = with_obs a ot (a_store a) Idle (a_applied a))))
+  \/ (a_phase a = Idle /\
+        ((exists k, o = OOnPersistReady k /\ a' = with_obs a ot (a_store a) Idle (a_applied a))
+         \/ (o = OAdvanceApply /\ a' = with_obs a ot (a_store a) Idle
+                                        (if a_cursor a =? 0 then a_applied a else a_cursor a))
+         \/ (exists x, o = OAdvanceApplyTo x /\ x <= a_cursor a
+               /\ a' = with_obs a ot (a_store a) Idle (if x =? 0 then a_applied a else x)))).
+Proof.
+  split.
+  - intros H. destruct H.
+    + left. auto.
+    + right; left. eauto 10.
+    + right; right; left. exists m. split; [reflexivity|]. left. auto.
+    + right; right; left. exists m. split; [reflexivity|]. right; left. eauto.
+    + right; right; left. exists m. split; [reflexivity|]. right; right; left. eauto.
+    + right; right; left. exists m. split; [reflexivity|]. right; right; right. exists ci. auto 10.
+    + right; right; right; left. exists rd. split; [assumption|]. left. auto.
+    + right; right; right; left. exists rd. split; [assumption|]. right. auto.
+    + right; right; right; left. exists rd. split; [assumption|]. right. auto.
+    + right; right; right; right. split; [assumption|]. left. eauto.
+    + right; right; right; right. split; [assumption|]. right; left. auto.
+    + right; right; right; right. split; [assumption|]. right; right. eauto.
+  - intros [(A & B & ->)|[(n1 & rd & -> & A & B & ->)|[(m & -> & H)|[(rd & A & H)|(A & H)]]]].
+    + apply AN_idle; assumption.
+    + eapply AN_ready; eassumption.
+    + destruct H as [(B & ->)|[(rd & B & C0 & ->)|[(rd & B & C0 & ->)|(ci & B & C0 & D & E & ->)]]].
+      * apply AN_meta; assumption.
+      * apply AN_snap; assumption.
+      * apply AN_ents; assumption.
+      * eapply AN_compact; eassumption.
+    + destruct H as [(-> & ->)|([-> | ->] & ->)].
+      * apply AN_advance; assumption.
+      * apply AN_advance_append; assumption.
+      * apply AN_advance_async; assumption.
+    + destruct H as [(k & -> & ->)|[(-> & ->)|(x & -> & B & ->)]].
+      * apply AN_persist; assumption.
+      * apply AN_apply; assumption.
+      * apply AN_apply_to; assumption.
+Qed.
+
+Lemma idle_op_def o :
+  idle_op o = match o with
+              | OStep _ | OTick | OCampaign | OPropose _ _ | OProposeCC _ _ _ _ | OApplyCC _ | OPing
+              | OReportUnreachable _ | OReportSnapshot _ _ | ORequestSnapshot | OTransferLeader _
+              | OReadIndex _ => true
+              | _ => false
+              end.
+Proof. reflexivity. Qed.
+
+Lemma peer_msgs_ok_def m :
+  peer_msgs_ok m <->
+  (m_type m = MsgAppend ->
+     contiguous_from (m_index m + 1) (m_entries m) /\ Forall (fun e => e_term e <> 0) (m_entries m)
+     /\ m_index m + N.of_nat (length (m_entries m)) < u64_max
+     /\ (m_index m = 0 \/ m_log_term m <> 0))
+  /\ (m_type m = MsgSnapshot -> 1 <= s_index (m_snapshot m) < u64_max).
+Proof. reflexivity. Qed.
+
+Lemma peer_ok_def o : peer_ok o <-> match o with OStep m => peer_msgs_ok m | _ => True end.
+Proof. reflexivity. Qed.
+
+Lemma idx_margin_def n o :
+  idx_margin n o <->
+  last_index (r_log (rn_raft n)) + 1
+  + match o with OStep m => N.of_nat (length (m_entries m)) | _ => 0 end < u64_max.
+Proof. reflexivity. Qed.
+
+Lemma init_ok_def c st n0 :
+  init_ok c st n0 <->
+  SInv st /\ trig_log st = false /\ first_of st - 1 <= c_applied c
+  /\ c_applied c <= committed (r_log (rn_raft n0)).
+Proof. reflexivity. Qed.
+
+Lemma init_app_def c st : init_app c st = mkApp st Idle (c_applied c, []) (c_applied c) false.
+Proof. reflexivity. Qed.
+
+Lemma crun_iff a n a' n' :
+  crun a n a' n' <->
+  (a' = a /\ n' = n)
+  \/ exists o n1 ot a1, app_next a n o ot a1 /\ peer_ok o /\ idx_margin n o
+       /\ exec n o = Ok (n1, ot) /\ crun a1 n1 a' n'.
+Proof.
+  split.
+  - intros R. destruct R; [left; split; reflexivity|right; eauto 12].
+  - intros [[-> ->]|(o & n1 & ot & a1 & A & B & C0 & D & E)]; [constructor|econstructor; eassumption].
+Qed.
+
+Lemma recs_done_def a n :
+  recs_done a n = match a_phase a with
+                  | Writing _ WSnap => removelast (rn_records n)
+                  | _ => rn_records n
+                  end.
+Proof. reflexivity. Qed.
+
+Lemma phase_ok_def a n :
+  phase_ok a n <->
+  match a_phase a with
+  | Idle => True
+  | Writing rd st =>
+      let l := r_log (rn_raft n) in
+      let rr := List.last (rn_records n) (mkRR 0 None None false) in
+      rn_records n <> []
+      /\ rd_entries rd = u_entries (unst l)
+      /\ rd_snapshot rd = match u_snapshot (unst l) with Some s => s | None => snap_default end
+      /\ rr_last_entry rr = rec_last_of (u_entries (unst l))
+      /\ rr_snapshot rr = option_map (fun s => (s_index s, s_term s)) (u_snapshot (unst l))
+      /\ (forall s, u_snapshot (unst l) = Some s -> rn_commit_since_index n = s_index s)
+      /\ match st with
+         | WSnap => u_snapshot (unst l) <> None
+         | WEnts => snap_written l /\ u_entries (unst l) <> []
+         | WDone => snap_written l /\ (u_entries (unst l) <> [] -> ents_written l)
+         end
+  end.
+Proof. reflexivity. Qed.
+
+Lemma Good_iff a n :
+  Good a n <->
+  NGood false n
+  /\ a_store a = store (r_log (rn_raft n))
+  /\ Hist n (a_hist a)
+  /\ a_applied a = applied (r_log (rn_raft n))
+  /\ applied (r_log (rn_raft n)) <= rn_commit_since_index n
+  /\ rn_commit_since_index n <= committed (r_log (rn_raft n))
+  /\ rn_commit_since_index n < u_offset (unst (r_log (rn_raft n)))
+  /\ max_apply_unpersisted_log_limit (r_log (rn_raft n)) = 0
+  /\ first_of (store (r_log (rn_raft n))) <= rn_commit_since_index n + 1
+  /\ (forall s, u_snapshot (unst (r_log (rn_raft n))) = Some s -> 1 <= s_index s)
+  /\ (a_got a = true -> 1 <= committed (r_log (rn_raft n)))
+  /\ (forall rr i t, In rr (recs_done a n) -> rr_snapshot rr = Some (i, t) ->
+                     i < first_of (store (r_log (rn_raft n))))
+  /\ phase_ok a n.
+Proof.
+  split.
+  - intros G. destruct G. splits; assumption.
+  - intros (A & B & C0 & D & E & F & G0 & H & I0 & J & K & L & M). constructor; assumption.
+Qed.
+
+Lemma lrel_def Q l l' :
+  lrel Q l l' <->
+  (store l' = store l
+   /\ committed l <= committed l'
+   /\ (u_snapshot (unst l) <> None -> u_snapshot (unst l') <> None)
+   /\ (forall s, u_snapshot (unst l') = Some s -> u_snapshot (unst l) = Some s \/ Q s)
+   /\ (forall b, b <= committed l -> b < u_offset (unst l) -> b < u_offset (unst l'))
+   /\ (max_apply_unpersisted_log_limit l = 0 -> max_apply_unpersisted_log_limit l' = 0))
+  /\ applied l' = applied l.
+Proof. reflexivity. Qed.
+
+Lemma snap_of_def m s : snap_of m s <-> m_type m = MsgSnapshot /\ s = m_snapshot m.
+Proof. reflexivity. Qed.
+
+Lemma op_snap_def o s : op_snap o s <-> match o with OStep m => snap_of m s | _ => False end.
+Proof. reflexivity. Qed.
